@@ -32,7 +32,7 @@ theorem nodeRule_of_eqns {jt : JetTypes} {ρ : Nat → Inf.Ty} {n i : Nat} {nd :
     {es : List Eqn} {f' : Nat}
     (hn : nodeEqns jt i nd f = some (es, f')) (hs : ∀ e ∈ es, e.1.eval ρ = e.2.eval ρ)
     (hch : ∀ c ∈ nd.children, c < n) (hok : nodeOK i nd = true) :
-    NodeRule (arrowsOf n ρ) (tyOfInf (ρ (2 * i))) (tyOfInf (ρ (2 * i + 1))) nd := by
+    NodeRule jt (arrowsOf n ρ) (tyOfInf (ρ (2 * i))) (tyOfInf (ρ (2 * i + 1))) nd := by
   cases nd with
   | iden =>
     simp only [nodeEqns, Option.some.injEq, Prod.mk.injEq] at hn
@@ -156,8 +156,14 @@ theorem nodeRule_of_eqns {jt : JetTypes} {ρ : Nat → Inf.Ty} {n i : Nat} {nd :
     obtain ⟨h1, h2⟩ := hs
     refine ⟨by rw [h1]; rfl, by rw [h2, tyOfInf_tmOfTy], ?_⟩
     simpa [nodeOK, Node.children] using hok
-  | jet name => trivial
-  | hidden hh => simp [nodeOK] at hok
+  | jet name =>
+    simp only [nodeEqns, Option.map_eq_some_iff, Prod.mk.injEq] at hn
+    obtain ⟨⟨s, t⟩, hj, rfl, rfl⟩ := hn
+    simp only [List.mem_cons, List.not_mem_nil, or_false, forall_eq_or_imp, forall_eq, src, tgt,
+      Inf.Tm.eval] at hs
+    obtain ⟨h1, h2⟩ := hs
+    simp only [NodeRule, h1, h2, tyOfInf_tmOfTy, hj]
+  | hidden hh => trivial
 
 /-! ### every node's equations are among the constraints -/
 
@@ -240,7 +246,7 @@ is `1 → 1` -/
 theorem infer_rules {jt : JetTypes} {p : Plan} {program : Bool} {ar : Arrows}
     (h : infer jt p program = .ok ar) (hok : planOK p = true) :
     ar.size = p.size ∧
-    (∀ i nd, p[i]? = some nd → NodeRule ar (srcOf ar i) (tgtOf ar i) nd) ∧
+    (∀ i nd, p[i]? = some nd → NodeRule jt ar (srcOf ar i) (tgtOf ar i) nd) ∧
     (program = true → srcOf ar (p.size - 1) = .one ∧ tgtOf ar (p.size - 1) = .one) := by
   obtain ⟨ρ, E, hc, hsol, rfl⟩ := infer_sol h
   simp only [constraints, Option.bind_eq_bind, Option.bind_eq_some_iff, Option.pure_def,
